@@ -20,7 +20,16 @@ RULE = ("one-dimensional sweeps (exhaustive): each of the six timestamps over th
         "(complete products of {absent, -1h, -skew-2, -skew-1, -skew+1, +skew+1, +1h} for two, per skew); 0/1/2/n bearer "
         "SubjectConfirmations from the shapes {no data, open, both bounds, expired, expired by 1 s, too early, NotBefore "
         "only, no bounds, inside by 1 s, inside-but-unordered} (complete products for two); no Conditions / Conditions "
-        "without bounds / without AudienceRestriction / the empty element; seeded random mixtures of everything.  non-trivial = distinct (field, offset "
+        "without bounds / without AudienceRestriction / the empty element; seeded random mixtures of everything.  DECORATED cases "
+        "(round 6; Model.dinput): what stands around the time stamps is an input — the Address of the bearer "
+        "SubjectConfirmationData {absent, empty, IPv4, IPv6 plain / bracketed / unabbreviated, host name, octet out of "
+        "range, CIDR} x all window shapes x skew, and under the sweeps of the five window stamps; the peer the application "
+        "names in conv_info {none, wildcard, no remote_addr key, the Address, another, other spelling} x Address x window x "
+        "delivery; the confirmation METHOD {bearer, holder-of-key, sender-vouches, unknown} x data {none, inside, expired, "
+        "too early, NotBefore only} x KeyInfo, complete products of two confirmations out of 15 decorated shapes; "
+        "decorations the model does not know (OneTimeUse / ProxyRestriction in Conditions, SubjectLocality in the "
+        "AuthnStatement, KeyInfo in bearer data) alone and under the sweeps; the UNSOLICITED exchange (allow_unsolicited, no "
+        "InResponseTo anywhere, nothing / an unrelated request pending) under the sweeps and window shapes; random mixtures.  non-trivial = distinct (field, offset "
         "class, skew, syntax) tuples / distinct message shapes where at least one part is not at its baseline position")
 TRUSTED = ["source-to-Gallina translator harness/py2coq.py + coq/theories/Base/Py.v (validate_on_or_after / validate_before are "
            "re-translated from the source text on every run; c05_source_* prove them equal to the model)",
@@ -32,13 +41,18 @@ TRUSTED = ["source-to-Gallina translator harness/py2coq.py + coq/theories/Base/P
            "rewrite X.timetuple() -> timetuple(X) (harness/c05.py:_timetuple_shape) and StatusResponse._verify after the "
            "float constant 2.0 is made an external value (_float_shape); c05_source2_* (C05/Property.v, proofs in "
            "C05/Source2.v) prove each equal to the model function / stage of Model.accept it mirrors, "
-           "c05_source2_accept_by_parts that the stages compose to Model.accept",
+           "c05_source2_accept_by_parts that the stages compose to Model.accept; c05_source2_bearer_confirmed_address* : "
+           "_bearer_confirmed on data that name an Address (valid_address external)",
            "xmlsec1 stand-in", "renderer harness/render.py", "virtual clock harness/env.py (patches saml2.time_util.time/datetime)"]
 ASSUMPTIONS = ["timestamps later than 1970 + skew", "clock reads whole seconds (utc_now truncates)",
                "bearer SubjectConfirmationData with NotBefore also carries NotOnOrAfter (completeness half only)",
                "whole-message cases: ONE bearer confirmation whose window holds now confirms the subject (soundness half: "
                "exists); completeness half only for exactly one AuthnStatement, a delivery Entity.unravel unpacks (POST, "
-               "Redirect, SOAP), a Destination that is absent or the SP's own, and every bearer confirmation carrying data"]
+               "Redirect, SOAP), a Destination that is absent or the SP's own, and every bearer confirmation carrying data",
+               "decorated cases: a holder-of-key / sender-vouches confirmation may confirm the subject in place of a bearer one "
+               "(the property speaks of bearer data only); now has to be inside the bounds of EVERY bearer "
+               "SubjectConfirmationData; which Address texts are IPv4/IPv6 is the generator's table (harness/c05.py:ADDRS); "
+               "completeness half only for all-bearer messages whose Addresses are well-formed and name the reported peer"]
 
 NOW = spaccept.NOW
 
@@ -319,6 +333,7 @@ def generate(ctx):
                     cases.append(c)
     cases += text_cases(ctx)
     cases += message_cases(ctx)      # last: the streams of the earlier groups stay what they were
+    cases += decor_cases(ctx)        # (round 6) after everything else, for the same reason
     return cases
 
 
@@ -511,6 +526,181 @@ def message_cases(ctx):
     return out
 
 
+# ---------------------------------------------------------------------------- decorated confirmations (Model.dinput)
+# Round 6.  What stands AROUND the time stamps is an input too: every SubjectConfirmation has a Method (bearer /
+# holder-of-key / sender-vouches / unknown), its data may name an Address (absent, the empty string, IPv4, IPv6 in three
+# spellings, texts that are no address) and carry a ds:KeyInfo; the application may hand over conversation info that
+# names the peer (conv_info["remote_addr"]: absent, the wildcard, other keys only, the Address, another address).
+# The model knows these (Model.decor / remote).  Decorations the model does NOT know (they must not matter, like the
+# time zone): OneTimeUse / ProxyRestriction inside Conditions, SubjectLocality inside the AuthnStatement.
+ADDRS = [("v4", "192.0.2.17", True), ("v4b", "198.51.100.4", True), ("v6", "2001:db8::17", True),
+         ("v6br", "[2001:db8::17]", True), ("v6full", "2001:0db8:0000:0000:0000:0000:0000:0017", True),
+         ("host", "idp.example.org", False), ("octet", "192.0.2.256", False), ("cidr", "192.0.2.0/24", False),
+         ("empty", "", None)]
+ADDR = {k: (i + 1, text, ok) for i, (k, text, ok) in enumerate(ADDRS)}
+METHODS = {"bearer": ("MBearer", render.SCM_BEARER), "hok": ("MHolderOfKey", "urn:oasis:names:tc:SAML:2.0:cm:holder-of-key"),
+           "sv": ("MSenderVouches", "urn:oasis:names:tc:SAML:2.0:cm:sender-vouches"),
+           "other": ("MOther", "urn:oasis:names:tc:SAML:2.0:cm:attested")}
+# conv_info spellings: the wildcard and "conversation info without remote_addr" both mean "any peer"
+REMOTES = [None, "any", "nokey", "v4", "v4b", "v6", "v6br"]
+COND_EXTRA = {None: "", "otu": "<saml:OneTimeUse/>", "proxy": '<saml:ProxyRestriction Count="0"/>',
+              "both": '<saml:OneTimeUse/><saml:ProxyRestriction Count="1"><saml:Audience>%s</saml:Audience></saml:ProxyRestriction>'
+                      % world.SP_ID}
+LOCALITY = {None: "", "addr": '<saml:SubjectLocality Address="192.0.2.17"/>',
+            "dns": '<saml:SubjectLocality Address="2001:db8::17" DNSName="client.example.org"/>'}
+KEYINFO = '<ds:KeyInfo xmlns:ds="http://www.w3.org/2000/09/xmldsig#"><ds:KeyName>holder</ds:KeyName></ds:KeyInfo>'
+
+
+def dk(m="bearer", addr=None, ki=False):
+    return {"m": m, "addr": addr, "ki": bool(ki)}
+
+
+def dmsg(skew, frac, tag, decor, remote=None, cond_extra=None, locality=None, unsolicited=None, **parts):
+    c = msg(skew, frac, tag, **parts)
+    c["tag"] = "decor:" + tag
+    assert len(decor) == len(c["confs"])
+    c["decor"] = [dict(d) for d in decor]
+    for w, d in zip(c["confs"], c["decor"]):
+        if w is None:                      # no SubjectConfirmationData: nothing to decorate
+            d["addr"], d["ki"] = None, False
+    c["remote"] = remote
+    c["cond_extra"] = cond_extra
+    c["locality"] = locality
+    if unsolicited:
+        c["unsolicited"] = unsolicited
+    return c
+
+
+def decor_cases(ctx):
+    rng = ctx.rng
+    deep = ctx.thorough
+    out = []
+    addr_keys = [k for k, _, _ in ADDRS]
+    # (G1) the Address of the one bearer confirmation x the shapes of its window, per skew; the one-dimensional
+    # sweeps of all five window stamps with an Address present
+    for skew in SKEWS:
+        keys = addr_keys if (skew in (None, 60) or deep) else ["v4", "v6br", "host"]
+        for ak in keys:
+            for w in conf_shapes(skew):
+                if w is None:
+                    continue
+                out.append(dmsg(skew, None, "address", [dk(addr=ak)], confs=[w],
+                                binding="post" if rng.random() < 0.7 else rng.choice(["redirect", "soap"])))
+    for skew in (60,) if not deep else SKEWS:
+        for f in FIELDS[:5]:
+            for o in offsets(skew)[:14]:
+                ak = rng.choice(["v4", "v6", "v6br", "v6full"])
+                out.append(dmsg(skew, None if o is None else rng.choice([None, "5"]), "address-sweep:" + f,
+                                [dk(addr=ak, ki=rng.random() < 0.3)], **_field_parts(f, o)))
+    # (G2) who the application says the peer is x the Address x the window
+    for skew in (60,) if not deep else (None, 60):
+        k = skew or 0
+        for remote in REMOTES:
+            for ak in (None, "v4", "v6", "v6br", "host", "empty"):
+                for w in ([None, 300], [None, -k - 2], [k + 2, 3600]):
+                    for b in ("post", "redirect", "soap"):
+                        if b != "post" and not deep and rng.random() > 0.3:
+                            continue
+                        out.append(dmsg(skew, None, "peer", [dk(addr=ak)], remote=remote, confs=[w], binding=b))
+    for _ in range(300 if deep else 40):       # two confirmations of which one names the peer
+        skew = rng.choice(SKEWS)
+        sh = [w for w in conf_shapes(skew) if w is not None]
+        out.append(dmsg(skew, None, "peer:2", [dk(addr=rng.choice([None, "v4", "v4b", "v6"])) for _ in range(2)],
+                        remote=rng.choice(REMOTES), confs=[rng.choice(sh), rng.choice(sh)],
+                        binding=rng.choice(["post", "post", "redirect", "soap"])))
+    # (G3) the confirmation METHOD: one confirmation of every method x data shapes; complete products of two
+    for skew in (0, 60) if not deep else (0, 60, 180):
+        k = skew or 0
+        for m in ("hok", "sv", "other", "bearer"):
+            for w in (None, [None, 300], [None, -k - 2], [k + 2, 3600], [-300, None]):
+                for ki in (False, True):
+                    for b in ("post", "soap"):
+                        out.append(dmsg(skew, None, "method:1", [dk(m, ki=ki)], confs=[w], binding=b))
+    for skew in (60,) if not deep else (0, 60, 180):
+        k = skew or 0
+        shapes = [("bearer", [None, 300], None, False), ("bearer", [None, 300], "v4", False),
+                  ("bearer", [None, -k - 2], "v4", True), ("bearer", [None, -k - 2], None, False),
+                  ("bearer", [k + 2, 3600], "v6br", True), ("bearer", [k - 1, -k + 1], None, False),
+                  ("bearer", [None, 300], "host", False), ("bearer", None, None, False),
+                  ("hok", [None, 300], None, True), ("hok", [None, -k - 2], "v4", True), ("hok", [None, 300], None, False),
+                  ("sv", [None, 300], None, False), ("sv", [None, -k - 2], None, False), ("sv", None, None, False),
+                  ("other", [None, 300], None, False)]
+        for m1, w1, a1, k1 in shapes:
+            for m2, w2, a2, k2 in shapes:
+                out.append(dmsg(skew, None, "method:2", [dk(m1, a1, k1), dk(m2, a2, k2)], confs=[w1, w2],
+                                binding="post" if rng.random() < 0.8 else "soap"))
+    # (G4) decorations the model does not know, over the window sweeps
+    for ce in COND_EXTRA:
+        for loc in LOCALITY:
+            if ce is None and loc is None:
+                continue
+            for b in ("post", "soap"):
+                out.append(dmsg(60, None, "unmodelled", [dk()], cond_extra=ce, locality=loc, binding=b))
+    for skew in (60,) if not deep else SKEWS:
+        for f in FIELDS[:5]:
+            for o in offsets(skew)[:14]:
+                ce, loc = rng.choice([("otu", None), ("proxy", None), (None, "addr"), (None, "dns"), ("both", "dns")])
+                out.append(dmsg(skew, None, "unmodelled-sweep:" + f, [dk(ki=rng.random() < 0.5)], cond_extra=ce, locality=loc,
+                                **_field_parts(f, o)))
+    # (G6) the exchange is UNSOLICITED (SP option allow_unsolicited; Response and confirmation data without InResponseTo;
+    # nothing pending / an unrelated request pending): the part of _bearer_confirmed after the window is another one,
+    # the window is the same (the model has no such input)
+    for skew in (60,) if not deep else SKEWS:
+        for f in FIELDS[:5]:
+            for o in offsets(skew)[:14]:
+                out.append(dmsg(skew, None, "unsolicited-sweep:" + f, [dk(addr=rng.choice([None, None, "v4", "v6br"]))],
+                                unsolicited=rng.choice(["empty", "pending"]),
+                                binding="post" if rng.random() < 0.7 else "redirect", **_field_parts(f, o)))
+    for skew in (None, 180):
+        for w in conf_shapes(skew):
+            for ak in (None, "v6"):
+                out.append(dmsg(skew, None, "unsolicited", [dk(addr=ak)], unsolicited="pending" if ak else "empty", confs=[w]))
+    # (G5) everything at once
+    for _ in range(1500 if deep else 160):
+        skew = rng.choice(SKEWS)
+        offs = [o for o in offsets(skew) if o is not None]
+        pick = lambda base: base if rng.random() < 0.6 else rng.choice(offs + [None])  # noqa: E731
+        sh = conf_shapes(skew)
+        n = rng.choice([1, 1, 1, 2, 2, 3])
+        confs = [rng.choice(sh) if rng.random() < 0.5 else [pick(None), pick(300)] for _ in range(n)]
+        decor = [dk(rng.choice(["bearer", "bearer", "bearer", "hok", "sv", "other"] if rng.random() < 0.4 else ["bearer"]),
+                    rng.choice([None, None] + addr_keys), rng.random() < 0.3) for _ in range(n)]
+        out.append(dmsg(skew, rng.choice([None, None, "5"]), "random", decor,
+                        remote=rng.choice(REMOTES) if rng.random() < 0.4 else None,
+                        cond_extra=rng.choice(list(COND_EXTRA)) if rng.random() < 0.3 else None,
+                        locality=rng.choice(list(LOCALITY)) if rng.random() < 0.3 else None,
+                        unsolicited=rng.choice(["empty", "pending"]) if rng.random() < 0.2 else None,
+                        binding=rng.choice(["post", "post", "redirect", "soap"]), dest=rng.choice(["own", "own", "absent"]),
+                        enc=rng.random() < 0.25, confs=confs,
+                        cond=None if rng.random() < 0.1 else [pick(-300), pick(300)],
+                        stmts=[pick(None) for _ in range(rng.choice([1, 1, 1, 1, 1, 2, 0]))],
+                        issue=0 if rng.random() < 0.8 else rng.choice(offs)))
+    return out
+
+
+def _confirmation_xml(case, w, d, endpoint):
+    """One SubjectConfirmation with its decorations (local renderer: render.subject_confirmation has no KeyInfo)."""
+    method = METHODS[d["m"]][1]
+    if w is None:
+        return "<saml:SubjectConfirmation Method=%s/>" % render.quoteattr(method)
+    at = render.attr("InResponseTo", None if case.get("unsolicited") else "req-1") + render.attr("NotBefore", _ts(case, w[0])) + \
+        render.attr("NotOnOrAfter", _ts(case, w[1])) + render.attr("Recipient", endpoint)
+    if d["addr"] is not None:
+        at += render.attr("Address", ADDR[d["addr"]][1])                 # (also the empty string: Address="")
+    return "<saml:SubjectConfirmation Method=%s><saml:SubjectConfirmationData%s>%s</saml:SubjectConfirmationData>" \
+           "</saml:SubjectConfirmation>" % (render.quoteattr(method), at, KEYINFO if d["ki"] else "")
+
+
+def _conv_info(remote):
+    if remote is None:
+        return None
+    if remote == "any":
+        return {"remote_addr": "0.0.0.0"}
+    if remote == "nokey":
+        return {"user_agent": "verif"}
+    return {"remote_addr": ADDR[remote][1]}
+
+
 # ---------------------------------------------------------------------------- time-stamp TEXT cases (C05/Time.v)
 Y10K = 253402300800
 
@@ -616,6 +806,8 @@ def observe_message(case):
     over = {}
     if case["skew"] is not None:
         over["accepted_time_diff"] = case["skew"]
+    if case.get("unsolicited"):
+        over["sp_allow_unsolicited"] = True
     sp = spaccept.get_sp(over)
     _, binding, endpoint = BINDINGS[case["binding"]]
     a = spaccept.good_assertion()
@@ -640,6 +832,11 @@ def observe_message(case):
             c["data"] = d
         confs.append(c)
     a["subject"]["confirmations"] = confs
+    if "decor" in case:
+        a["subject"] = {"name_id_xml": render.name_id("subject-1") + "".join(
+            _confirmation_xml(case, w, d, endpoint) for w, d in zip(case["confs"], case["decor"])), "confirmations": []}
+        if a["conditions"] is not None:
+            a["conditions"]["extra"] = COND_EXTRA[case.get("cond_extra")]
     sts = []
     for i, o in enumerate(case["stmts"]):
         st = {"authn_instant": env.iso(NOW - 60 * i), "session_index": "s-%d" % (i + 1),
@@ -650,9 +847,18 @@ def observe_message(case):
     a["authn_statements"] = sts
     dest = {"own": endpoint, "absent": None, "other": OTHER_ADDRESS}[case["dest"]]
     r = spaccept.good_response(issue_instant=_ts(case, case["issue"]), destination=dest)
-    if case["enc"]:      # spaccept.build with the encryption step before the Response is signed
-        r = dict(r, assertions_xml=[render.assertion(a)], sig_template=render.signature_template(r["id"]))
-        xml = render.encrypt_assertion_in_response(render.response(r), "sp")
+    outstanding = {"req-1": "/"}
+    if case.get("unsolicited"):
+        r["in_response_to"] = None
+        outstanding = {} if case["unsolicited"] == "empty" else {"req-7": "/elsewhere"}
+    if case["enc"] or "decor" in case:      # spaccept.build with the encryption step before the Response is signed
+        axml = render.assertion(a)
+        if case.get("locality"):
+            axml = axml.replace("<saml:AuthnContext>", LOCALITY[case["locality"]] + "<saml:AuthnContext>")
+        r = dict(r, assertions_xml=[axml], sig_template=render.signature_template(r["id"]))
+        xml = render.response(r)
+        if case["enc"]:
+            xml = render.encrypt_assertion_in_response(xml, "sp")
         xml = render.sign_xml(xml, "idp", render.R_ELEM, r["id"])
     else:
         xml = spaccept.build(r, [a], sign_response="idp")
@@ -662,7 +868,7 @@ def observe_message(case):
         encoded = render.soap_envelope(xml)
     else:
         encoded = render.b64(xml)
-    o = spaccept.observe(sp, xml, binding, {"req-1": "/"}, encoded=encoded)
+    o = spaccept.observe(sp, xml, binding, outstanding, conv_info=_conv_info(case.get("remote")), encoded=encoded)
     return {"identity": o["identity"], "nooa": o["nooa"], "exc": o["exc"]}
 
 
@@ -735,6 +941,19 @@ def coq_case(case, obs):
     if "binding" in case:
         st = lambda o: "None" if o is None else "(Some (%s, %s))" % (cq(NOW + o), cq(bool(case["frac"])))  # noqa: E731
         win = lambda w: "None" if w is None else "(Some (%s, %s))" % (st(w[0]), st(w[1]))  # noqa: E731
+        if "decor" in case:
+            def adr(k):
+                if k is None or ADDR[k][2] is None:
+                    return "ANone"
+                return "(%s %s)" % ("AWell" if ADDR[k][2] else "AMal", cq(ADDR[k][0]))
+            rem = case["remote"]
+            remote = "RNone" if rem is None else "RAny" if rem in ("any", "nokey") else "(RAddr %s)" % cq(ADDR[rem][0])
+            return "C05.Corr.mkd %s %s %s %s %s (%s, %s) %s [%s] [%s] [%s] %s %s %s" % (
+                cq(NOW), skew, BINDINGS[case["binding"]][0], DESTS[case["dest"]], cq(bool(case["enc"])), cq(NOW + case["issue"]),
+                cq(bool(case["frac"])), win(case["cond"]), "; ".join(win(w) for w in case["confs"]),
+                "; ".join(st(o) for o in case["stmts"]),
+                "; ".join("dk %s %s %s" % (METHODS[d["m"]][0], adr(d["addr"]), cq(bool(d["ki"]))) for d in case["decor"]),
+                remote, cq(case["binding"] in ("post", "redirect")), v)
         return "C05.Corr.mkx %s %s %s %s %s (%s, %s) %s [%s] [%s] %s" % (
             cq(NOW), skew, BINDINGS[case["binding"]][0], DESTS[case["dest"]], cq(bool(case["enc"])), cq(NOW + case["issue"]),
             cq(bool(case["frac"])), win(case["cond"]), "; ".join(win(w) for w in case["confs"]),
@@ -752,6 +971,9 @@ def nontrivial(case, obs):
         moved = tuple((f, case[f]) for f in sorted(MBASE) if case[f] != MBASE[f])
         if not case.get("aud", True):
             moved += (("aud", False),)
+        if "decor" in case:
+            moved += (("decor", tuple((d["m"], d["addr"], d["ki"]) for d in case["decor"]), case["remote"],
+                       case["cond_extra"], case["locality"], case.get("unsolicited")),)
         return (moved, case["skew"], bool(case["frac"]), case.get("tz")) if moved else None
     moved = tuple((f, case[f]) for f in FIELDS if case[f] != BASE[f])
     if not moved:
@@ -772,7 +994,9 @@ def histogram(cases, observed):
         if "binding" in c:
             for k in ("delivery:%s/%s%s" % (c["binding"], c["dest"], "/encrypted" if c["enc"] else ""),
                       "statements:%d" % len(c["stmts"]),
-                      "confirmations:%d" % len(c["confs"]), "conditions:%s" % ("absent" if c["cond"] is None else "present")):
+                      "confirmations:%d" % len(c["confs"]), "conditions:%s" % ("absent" if c["cond"] is None else "present")) + \
+                    (tuple("method:" + d["m"] for d in c["decor"]) + tuple("address:%s" % d["addr"] for d in c["decor"]) +
+                     ("peer:%s" % c["remote"], "unsolicited:%s" % c.get("unsolicited")) if "decor" in c else ()):
                 h.setdefault("message_shapes", {})
                 h["message_shapes"][k] = h["message_shapes"].get(k, 0) + 1
         if o["exc"]:
